@@ -296,7 +296,11 @@ def r4_scan_shape(ctx):
                     ctx.ok("window|upper-bound", f.where(S2), "start + nlen <= hlen")
                 else:
                     ctx.bad("window|upper-bound|%s" % si2["op"], f.where(S2), "the window's end is tested with %s(start + nlen, hlen): `<=` is what keeps a match that ends exactly at the end of the text" % si2["op"])
-    ctx.floor("anchor windows in find", len(wins), 1)
+    # the same window spelled `index.checked_sub(crit)`: Some(start) exactly when index >= crit
+    chk = [c for c in f.calls() if (c.callee or "").endswith("::checked_sub") and c.args and sh(ne(f.expr(c.args[0], 4))) == "index"]
+    for c in chk:
+        ctx.ok("window|lower-bound", f.where(c.block), "candidate compared whenever index.checked_sub(%s) is Some, which is index >= %s" % (sh(ne(f.expr(c.args[1], 4))), sh(ne(f.expr(c.args[1], 4)))))
+    ctx.floor("anchor windows in find", len(wins) + len(chk), 1)
     # replace: copy haystack[pos..index], then `to`, continue at index + len(from)
     r = ctx.need(REPL)
     ctx.touch(r)
